@@ -78,6 +78,11 @@ def coord(c, key):
     if form == "npscalars":
         import numpy
         return tuple(numpy.int64(x) for x in v)
+    if form in ("uint8", "uint16", "uint32", "uint64"):       # only generated for non-negative values
+        import numpy
+        return numpy.array(v, dtype=getattr(numpy, form))
+    if form == "iter":
+        return iter(v)
     raise RuntimeError("unknown form " + form)
 
 
@@ -105,11 +110,23 @@ def run_op(op, gens):
     import itertools
     k = op["op"]
     if k == "hex_open":
-        gens[op["id"]] = geometry.concentric_hexagons(op["radius"], tuple(op["start"]))
+        start = coord(dict(start=op["start"], forms=dict(start=op.get("sform", "tuple"))), "start")
+        gens[op["id"]] = geometry.concentric_hexagons(op["radius"], start)
+        gens[("start", op["id"])] = start
         return ["ok", None]
     if k == "hex_next":
         return ["ok", [ints(xy) for xy in itertools.islice(gens[op["id"]], op["n"])]]
+    if k == "hex_mutate":
+        # the caller reuses / updates the object it passed as `start` while the generator is suspended
+        start = gens.get(("start", op["id"]))
+        try:
+            start[0] += op["dx"]
+            start[1] += op["dy"]
+        except TypeError:
+            pass                         # tuple / iterator: nothing to modify
+        return ["ok", None]
     if k == "hex_drop":
+        gens.pop(("start", op["id"]), None)
         g = gens.pop(op["id"])
         if op.get("close"):
             g.close()
